@@ -54,8 +54,53 @@ static void one(int f, int h, int k)
     snprintf(smp, sizeof smp, "1017h=%u ms at %u Hz, %s -> heartbeats %llu, %llu ticks after the write", HB_MS[h], FREQ[f], IN[k], (unsigned long long)seen[0], (unsigned long long)seen[1]);
     mc_case_end((seen[0] << 24) ^ seen[1] ^ ((uint64_t)k << 60), 1, smp);
 }
-static void run_cfg(int cfg, int tier) { (void)cfg; (void)tier; for (int f = 0; f < NF; f++) for (int h = 0; h < NH; h++) for (int k = 0; k < I_N; k++) { mc_case(3, f, h, k); one(f, h, k); } }
-static void run_case(const int *c, int n) { if (n < 4) return; mc_case(3, c[1], c[2], c[3]); one(c[1], c[2], c[3]); }
-static const char *cfg_name(int c) { (void)c; return "long heartbeat periods on fast timers"; }
-static const mc_enum E = { "C10", "c10long", 1, cfg_name, run_cfg, run_case };
+/* ---- cfg 1: the producer's timer queued into a crowded list.  Every sequence of up to 6 (7) operations over {application one-shot of 2, 4, 9, 13, 30 ticks,
+ * application cyclic timer of 3 and of 10 ticks, tick, 1017h := 7 ms} that contains exactly one write: the heartbeat is linked before, between (after one, two, ...
+ * pending events) and behind the other users' events; afterwards the heartbeats must come exactly 7, 14, 21, 28 ticks after the write ---- */
+enum { Q_ONE0 = 0, Q_CYC0 = 5, Q_TICK = 7, Q_WRITE = 8, Q_N = 9 };
+static const uint32_t QD[7] = { 2, 4, 9, 13, 30, 3, 10 };
+static void crowd_case(const int *ops, int n)
+{
+    long tw = -1, t = 0; int bad = 0, nhb = 0; char smp[200], *q = smp; long seen[6] = { 0 };
+    w_regions_clear();
+    nc_defaults(); NC.hbprod = 1; NC.hb_time = 0; NC.tmr_n = 8; nc_build();
+    for (int i = 0; i < n && !bad; i++) {
+        w_obs_clear();
+        if (ops[i] < Q_CYC0) (void)COTmrCreate(&Node.Tmr, QD[ops[i]], 0, app_cb, 0);
+        else if (ops[i] < Q_TICK) (void)COTmrCreate(&Node.Tmr, QD[ops[i]], QD[ops[i]], app_cb, 0);
+        else if (ops[i] == Q_TICK) { w_tick(&Node, 1); t++; }
+        else { if (nc_sdo_write(0x1017, 0, 7, 2) != 0) { mc_fail("hb-write-refused", "1017h = 7 ms refused"); bad = 1; } w_obs_clear(); tw = t; }
+        mc_steps++;
+        if (nc_count_tx(0x700u + NC.node_id)) { int c = nc_count_tx(0x700u + NC.node_id); if (nhb < 6) seen[nhb] = t - tw; nhb += c; if (tw < 0 || (t - tw) % 7 != 0 || c != 1) bad = 2; }
+        else if (ops[i] == Q_TICK && tw >= 0 && t > tw && (t - tw) % 7 == 0) bad = 2;
+        q += snprintf(q, sizeof smp - (size_t)(q - smp) - 40, "%s%s%u", i ? "," : "", ops[i] < Q_CYC0 ? "one-shot " : ops[i] < Q_TICK ? "cyclic " : ops[i] == Q_TICK ? "tick" : "1017h:=", ops[i] < Q_TICK ? QD[ops[i]] : ops[i] == Q_TICK ? 0u : 7u);
+    }
+    for (long end = t + 30; t < end && bad != 1; ) {
+        w_obs_clear(); w_tick(&Node, 1); t++; mc_steps++;
+        if (nc_count_tx(0x700u + NC.node_id)) { int c = nc_count_tx(0x700u + NC.node_id); if (nhb < 6) seen[nhb] = t - tw; nhb += c; if ((t - tw) % 7 != 0 || c != 1) bad = 2; }
+        else if ((t - tw) % 7 == 0) bad = 2;
+    }
+    if (bad == 2) mc_fail("hb-crowded-list", "operations [%s] (heartbeat time written at tick %ld): heartbeats %ld, %ld, %ld, %ld ticks after the write, expected 7, 14, 21, 28", smp, tw, seen[0], seen[1], seen[2], seen[3]);
+    snprintf(q, 40, " -> %ld,%ld,%ld,%ld", seen[0], seen[1], seen[2], seen[3]);
+    mc_case_end((uint64_t)(seen[0] | seen[1] << 8 | seen[2] << 16 | seen[3] << 24) ^ ((uint64_t)nhb << 40), 1, smp);
+}
+static void run_crowd(int tier)
+{
+    int maxn = tier ? 7 : 6, ops[8], ctx[10];
+    for (int n = 1; n <= maxn; n++) {
+        long total = 1; for (int i = 0; i < n; i++) total *= Q_N;
+        for (long code = 0; code < total && !mc_deadline_hit(); code++) {
+            long c = code; int w = 0;
+            for (int i = 0; i < n; i++) { ops[i] = (int)(c % Q_N); c /= Q_N; w += ops[i] == Q_WRITE; }
+            if (w != 1) continue;
+            ctx[0] = 4; ctx[1] = n; for (int i = 0; i < n; i++) ctx[2 + i] = ops[i];
+            mc_case_v(ctx, 2 + n);
+            crowd_case(ops, n);
+        }
+    }
+}
+static void run_cfg(int cfg, int tier) { (void)tier; if (cfg == 1) { run_crowd(tier); return; } for (int f = 0; f < NF; f++) for (int h = 0; h < NH; h++) for (int k = 0; k < I_N; k++) { mc_case(3, f, h, k); one(f, h, k); } }
+static void run_case(const int *c, int n) { if (n >= 3 && c[1] == 4) { mc_case_v(c + 1, n - 1); crowd_case(c + 3, c[2]); return; } if (n < 4) return; mc_case(3, c[1], c[2], c[3]); one(c[1], c[2], c[3]); }
+static const char *cfg_name(int c) { return c ? "producer timer queued into a crowded timer list" : "long heartbeat periods on fast timers"; }
+static const mc_enum E = { "C10", "c10long", 2, cfg_name, run_cfg, run_case };
 int main(int argc, char **argv) { return mc_enum_main(argc, argv, &E); }
